@@ -110,6 +110,16 @@ def run(ctx):
     n1 = len(hs)
     hs += gen(ctx, 5, sim=True, full=False, kfskip=kfskip, num=300 if q else 4000, tag="2")
     hs += gen(ctx, 9, sim=True, full=False, kfskip=kfskip, num=40 if q else 600, tag="3", seed=ctx.seed + 77)
+    if os.geteuid() != 0:
+        # capability of the environment, not semantics: without root a client cannot take other ids and the server cannot
+        # chown to other ids; every client keeps the caller's ids and auth_set keeps them too (recorded in the evidence)
+        me = [os.geteuid(), os.getegid()]
+        for h in hs:
+            for op in h[1:]:
+                op[2:4] = me
+                op[4] = 0
+                if op[7]:
+                    op[8:10] = me
     for h in (hs[:1] + hs[n1:n1 + 2]):
         ctx.sample({"scenario": to_lines(h)})
     ctx.exec_validate(exe, hs, to_lines, "IpcAdmitTrace.tla", "IpcAdmitTrace.cfg", nshards=4, timeout=1500)
